@@ -100,7 +100,8 @@ def ref_method_match(rule, scope):
 
 def run_selection(unit_idx, rule_choices, m0, m1):
     unit = UNITS[unit_idx]
-    gen = EntryPointGenerator.__new__(EntryPointGenerator)
+    # the real constructor (so that attributes it introduces exist); it walks a settings directory that does not exist
+    gen = EntryPointGenerator(types.SimpleNamespace(default_settings="/nonexistent-lian-verif-settings"), None, None)
     gen.entry_point_rules = [LazyRule(c) for c in rule_choices]
     gen.entry_point_results = []
     results = []
